@@ -692,6 +692,15 @@ func gen(seed uint64, tier string) {
 			if farExact(ox) && farExact(oy) {
 				fmt.Fprintf(out, "area f%s %s\n", lay(r), G(toPoly(q)))
 			}
+			// the first vertex of the first ring exactly ON a coordinate axis, the polygon far away along that axis
+			// (a local origin with one coordinate 0: the guards must look at each axis, not at both or none)
+			q, _ = randSpells(base, true, r.Bool())
+			if v := q[0][0]; r.Bool() {
+				q = translateRings(q, -v.X, oy)
+			} else {
+				q = translateRings(q, ox, -v.Y)
+			}
+			fmt.Fprintf(out, "cent f%s %s\nmcent f%s %s\n", lay(r), G(toPoly(q)), lay(r), G(geom.MultiPolygon{toPoly(q)}))
 		}
 		// the same base at dyadic scales (absolute thresholds must not exist): three scales per base,
 		// one closed and one free spelling each; still tag g (exact on the scaled grid)
@@ -1047,8 +1056,10 @@ func gen(seed uint64, tier string) {
 			tag = "g"
 		}
 		xs := 0 // extreme dyadic scale for every 5th grid case: squares of the coordinates leave the float range
-		if grid && i%10 == 4 {
-			xs = []int{-900, -600, -520, -511, 511, 520, 600, 900}[r.Intn(8)]
+		if grid && i%5 == 4 {
+			// far scales, and scales around the thresholds of distPointToSegment's range guard (2^±500) and around the
+			// magnitudes where the squares really leave the range (2^511.5 / 2^-537)
+			xs = []int{-900, -600, -520, -511, 511, 520, 600, 900, 499, 500, 501, 505, 506, 507, 508, 509, 510, -499, -500, -501, -505, -507, -509, -530, -535, -540}[r.Intn(26)]
 			f := math.Ldexp(1, xs)
 			sc := func(l geom.LineString) {
 				for j := range l {
@@ -1219,6 +1230,59 @@ func ptRes(p geom.Point) string { return "ok " + vproto.F2H(p.X) + " " + vproto.
 type layout struct {
 	bufs  [][]geom.Point // full backing buffers (len == cap)
 	clean [][]geom.Point
+	extra *geom.Point // the query point of a `dist` line: doubled together with the receiver
+}
+
+// doubleInPlace multiplies every coordinate of the receiver's memory (and the query point) by two, in place, and takes
+// a new snapshot; it refuses (false) when a coordinate is not finite or outside [2^-100, 2^100] (zero is fine).
+func (l *layout) doubleInPlace() bool {
+	ok := func(v float64) bool { a := math.Abs(v); return a == 0 || (a >= 0x1p-100 && a <= 0x1p100) }
+	for _, b := range l.bufs {
+		for _, q := range b {
+			if !ok(q.X) || !ok(q.Y) {
+				return false
+			}
+		}
+	}
+	if l.extra != nil && (!ok(l.extra.X) || !ok(l.extra.Y)) {
+		return false
+	}
+	for _, b := range l.bufs {
+		for j := range b {
+			b[j].X *= 2
+			b[j].Y *= 2
+		}
+	}
+	if l.extra != nil {
+		l.extra.X *= 2
+		l.extra.Y *= 2
+	}
+	l.snapshot()
+	return true
+}
+
+// scaledAnswer multiplies every float64 bit pattern of a result string by fac; false when the result holds a panic,
+// an error, a modification mark or a value that is not finite (nothing exact to compare with).
+func scaledAnswer(res string, fac float64) (string, bool) {
+	toks := strings.Fields(res)
+	for i, t := range toks {
+		if t == "ok" || t == "|" {
+			continue
+		}
+		if len(t) != 16 {
+			return "", false
+		}
+		u, err := strconv.ParseUint(t, 16, 64)
+		if err != nil {
+			return "", false
+		}
+		v := math.Float64frombits(u)
+		if math.IsNaN(v) || math.IsInf(v, 0) || math.Abs(v) > 0x1p900 || (v != 0 && math.Abs(v) < 0x1p-900) {
+			return "", false
+		}
+		toks[i] = vproto.F2H(v * fac)
+	}
+	return strings.Join(toks, " "), true
 }
 
 func (l *layout) window(mode string, rings [][]geom.Point) [][]geom.Point {
@@ -1367,36 +1431,59 @@ func evalLine(line string) string {
 				}
 				return s
 			}
+			// every measurement is a closure `run` so that it can be repeated on the SAME object after an in-place
+			// update (the `stale:` probe below); `lay` is the receiver's memory, `fac` what doubling every coordinate does
+			// to the answers (exactly: scaling by a power of two commutes with every rounding)
+			var run func() string
+			var lay *layout
+			fac := 2.
 			switch kind {
 			case "area":
 				gg, l := relayout(p.Geom(), mode)
 				g := gg.(geom.Polygon)
-				res = call("Area", l, func() string { return vproto.F2H(g.Area()) }) + " " + call("op.Area", l, func() string { return vproto.F2H(op.Area(g)) })
+				lay, fac = l, 4
+				run = func() string {
+					return call("Area", l, func() string { return vproto.F2H(g.Area()) }) + " " + call("op.Area", l, func() string { return vproto.F2H(op.Area(g)) })
+				}
 			case "marea":
 				gg, l := relayout(p.Geom(), mode)
 				g := gg.(geom.MultiPolygon)
-				res = call("Area", l, func() string { return vproto.F2H(g.Area()) }) + " " + call("op.Area", l, func() string { return vproto.F2H(op.Area(g)) })
+				lay, fac = l, 4
+				run = func() string {
+					return call("Area", l, func() string { return vproto.F2H(g.Area()) }) + " " + call("op.Area", l, func() string { return vproto.F2H(op.Area(g)) })
+				}
 			case "cent":
 				gg, l := relayout(p.Geom(), mode)
 				g := gg.(geom.Polygon)
-				res = call("Centroid", l, func() string { return ptRes(g.Centroid()) }) + " | " + call("op.Centroid", l, func() string {
-					c, err := op.Centroid(g)
-					if err != nil {
-						return "err"
-					}
-					return ptRes(c)
-				})
+				lay = l
+				run = func() string {
+					return call("Centroid", l, func() string { return ptRes(g.Centroid()) }) + " | " + call("op.Centroid", l, func() string {
+						c, err := op.Centroid(g)
+						if err != nil {
+							return "err"
+						}
+						return ptRes(c)
+					})
+				}
 			case "mcent":
 				gg, l := relayout(p.Geom(), mode)
 				g := gg.(geom.MultiPolygon)
-				res = call("Centroid", l, func() string { return ptRes(g.Centroid()) })
+				lay = l
+				run = func() string { return call("Centroid", l, func() string { return ptRes(g.Centroid()) }) }
 			case "len":
 				g, l := relayout(p.Geom(), mode)
-				res = call("Length", l, func() string { return vproto.F2H(g.(geom.Linear).Length()) }) + " " + call("op.Length", l, func() string { return vproto.F2H(op.Length(g)) })
+				lay = l
+				run = func() string {
+					return call("Length", l, func() string { return vproto.F2H(g.(geom.Linear).Length()) }) + " " + call("op.Length", l, func() string { return vproto.F2H(op.Length(g)) })
+				}
 			case "dist":
 				q := p.Pt()
 				g, l := relayout(p.Geom(), mode)
-				res = call("Distance", l, func() string { return vproto.F2H(g.(geom.Linear).Distance(q)) })
+				lay = l
+				l.extra = &q
+				run = func() string {
+					return call("Distance", l, func() string { return vproto.F2H(g.(geom.Linear).Distance(q)) })
+				}
 			case "buf":
 				c := p.Pt()
 				rad := p.F()
@@ -1413,6 +1500,22 @@ func evalLine(line string) string {
 				})
 			default:
 				res = "badline"
+			}
+			if run != nil {
+				res = run()
+				// history on one object: the caller updates the receiver in place (every coordinate doubled — exact)
+				// and asks again; the answer must be the answer for the updated shape, i.e. the first answer times
+				// `fac`, bit for bit.  A result remembered from the first call (keyed by the object's address, its
+				// length, ...) shows up as `stale:<kind>`.
+				if want, ok := scaledAnswer(res, fac); ok {
+					if again := run(); again != res { // the identical call, repeated on the untouched object
+						mods += " stale:repeat-" + kind
+					} else if lay.doubleInPlace() {
+						if got := run(); got != want {
+							mods += " stale:" + kind
+						}
+					}
+				}
 			}
 			res += mods
 		})
